@@ -47,6 +47,10 @@ def gen_cases(tier, seed):
         big = LIMITS[lim][2] >= MB
         for cname in contents(LIMITS[lim][2]):
             large = cname.startswith('limit') and big
+            if not large and lim in ('16B', 'default') and cname in ('binary', 'limit+1', 'empty'):
+                for handler in ('input', 'output'):   # the path is a bare file name relative to the working directory
+                    yield {'limit': lim, 'content': cname, 'handler': handler, 'style': 'inst', 'passing': 'pos', 'cas': 'mem', 'bare': True}
+                    yield {'limit': lim, 'content': cname, 'handler': handler, 'style': 'static', 'passing': 'kw', 'cas': 'file', 'bare': True}
             for handler, style, passing in itertools.product(('input', 'output'), ('inst', 'static'), ('pos', 'kw')):
                 cas_list = cassettes.KINDS if not large else (['mem'] if tier == 'quick' else cassettes.KINDS)
                 if large and tier == 'quick' and (style, passing) != ('inst', 'pos'):
@@ -122,17 +126,20 @@ def run_case(case):
     opened = []
 
     def spy_open(file, *a, **k):
-        if isinstance(file, str) and file.startswith(scratch):
+        if isinstance(file, str) and (file.startswith(scratch) or not os.path.isabs(file)):
             opened.append((os.path.basename(file), a[0] if a else k.get('mode', 'r')))
         return real_open(file, *a, **k)
+    cwd0 = os.getcwd()
     try:
         spec = LIMITS[case['limit']]
         limit_bytes = spec[2]
+        if case.get('bare'):
+            os.chdir(scratch)
         viols = []
         twice = case['content'] == 'twice'
         content = b'first-content-A' if twice else contents(limit_bytes)[case['content']]
         content2 = b'other-content-B'
-        src = os.path.join(scratch, 'src.bin')
+        src = os.path.join(scratch, 'src.bin') if not case.get('bare') else 'src.bin'
         with real_open(src, 'wb') as f:
             f.write(content)
         tr = TapeRecorder(box.cassette)
@@ -166,7 +173,7 @@ def run_case(case):
         fresh = box.fresh()
         tr2 = TapeRecorder(fresh)
         Op2, handlers2 = make_op(tr2, spec)
-        dst = os.path.join(scratch, 'replayed_target.bin')
+        dst = os.path.join(scratch, 'replayed_target.bin') if not case.get('bare') else 'replayed_target.bin'
         if case['handler'] == 'input' and not twice:   # a stale file of the same size, other content, is already in place
             with real_open(dst, 'wb') as f:
                 f.write(b'Z' * len(PLACEHOLDER if len(content) > limit_bytes else content))
@@ -177,7 +184,16 @@ def run_case(case):
             Op2.bodies[:] = []
             plan3 = [(f_, a_, k_, (lambda: snaps.append(real_open(dst, 'rb').read() if os.path.exists(dst) else None))) for f_, a_, k_, _ in plan2]
             pf.out = Op2().execute(plan3)
-        pb = tr2.play(ids[0], pf)
+        pf.out = None
+        try:
+            pb = tr2.play(ids[0], pf)
+        except Exception as e:   # the code under test failed while replaying: a verdict, not a harness problem
+            return dict(viol=[viol('replay:raised:%s' % type(e).__name__, 'replay of a recorded file %s raised (limit %s, content %s, %s path)' % (
+                case['handler'], case['limit'], case['content'], 'bare relative' if case.get('bare') else 'absolute'), 'Playback', repr(e))], obs='raised', nontrivial=True)
+        if pf.out is None:
+            opout = [o.value for o in pb.playback_outputs if '_tape_recorder_operation' in o.key]
+            return dict(viol=[viol('replay:operation-failed', 'the replayed operation failed inside the file %s interception (limit %s, content %s, %s path)' % (
+                case['handler'], case['limit'], case['content'], 'bare relative' if case.get('bare') else 'absolute'), 'operation completes', repr(opout)[:300])], obs='op-failed', nontrivial=True)
         if Op2.bodies:
             viols.append(viol('body-executed-in-replay', 'intercepted bodies ran during replay', [], list(Op2.bodies)))
         if case['handler'] == 'input':
@@ -200,6 +216,16 @@ def run_case(case):
                 if name == 'recorded' and got != expected:
                     viols.append(viol('output:recorded-bytes:%s' % _kind(case, content), 'holder content of the recorded output(s) (limit %s, content %s, %d bytes)' % (
                         case['limit'], case['content'], len(content)), [_short(x) for x in expected], [_short(x) for x in got]))
+                if name == 'recorded' and holders:
+                    out_path = 'holder_out.bin' if case.get('bare') else os.path.join(scratch, 'holder_out.bin')
+                    try:
+                        holders[-1].to_file(out_path)
+                        written = real_open(out_path, 'rb').read()
+                    except Exception as e:
+                        written = repr(e)
+                    if written != expected[-1]:
+                        viols.append(viol('output:holder-to_file', 'InterceptedOutputFileHolder.to_file must write the held bytes to the given path', _short(expected[-1]),
+                                          _short(written) if isinstance(written, bytes) else written))
                 if name == 'recorded' and [x.output_file_path for x in holders] != [src] * len(holders):
                     viols.append(viol('output:recorded-path', 'holder path of the recorded output', src, [x.output_file_path for x in holders]))
         uniq = {}
@@ -209,6 +235,7 @@ def run_case(case):
         return dict(viol=list(uniq.values()), obs=repr((case['handler'], case['limit'], case['content'], above)), nontrivial=hard, transitions=4)
     finally:
         builtins.open = real_open
+        os.chdir(cwd0)
         box.close()
         shutil.rmtree(scratch, ignore_errors=True)
 
